@@ -1,9 +1,13 @@
 ---------------------------- MODULE BitVectorGen ----------------------------
-(* Scenario generator for C39: BitVector's actions plus a history variable.  *)
-(*  edges  (VIEW): one shortest history per (length, backing, abstract state, *)
-(*         operation+result); the abstraction keeps what the all-set test and *)
-(*         the masks distinguish                                              *)
-(*  sim    (-simulate): random walks                                          *)
+(* Scenario generator for C39: BitVector's actions plus a history variable.   *)
+(*  AllSet   (Focus, VIEW FocusView): one shortest history per (length,       *)
+(*           backing, abstract content, operation kind) over the part of the  *)
+(*           alphabet that decides the all-bits-set test                      *)
+(*  OpEdges  (VIEW AbsView + ACTION_CONSTRAINT EmitEdge): BFS over (length,   *)
+(*           backing, abstract content); every transition prints its history: *)
+(*           one per (abstract state, operation + argument) edge              *)
+(*  Sim/Big  (-simulate): random walks, n in 1..24 / {63,64,65,511,512}       *)
+(* The abstraction keeps what the all-set test and the masks distinguish.     *)
 EXTENDS BitVector, TLC, Json, IOUtils
 VARIABLE hist
 CONSTANT Focus
